@@ -179,11 +179,6 @@ def _actions(res):
     return out
 
 
-def _run_jobs(jobs, parallel):
-    with ThreadPoolExecutor(max_workers=parallel) as ex:
-        list(ex.map(lambda j: j.run(), jobs))
-
-
 def _behaviours(job):
     """Decode the histories a job printed (deterministic order)."""
     res = job.res
@@ -648,20 +643,26 @@ def _show(events):
     return " ".join(out)
 
 
-def _replay_all(ctx, batches):
-    """batches: list of (cfg name, algs, source label, [events...]).  Replays everything in forked
-    children (pool of 16 workers, each behaviour in its own fork) and judges."""
+def _make_pool(configs):
+    """16 worker processes, forked while this process is still single-threaded; every behaviour is
+    then run in a fresh fork of one of the workers."""
     import multiprocessing
 
+    _CONFIGS.update(configs)
+    _prepare_fork()
+    return multiprocessing.get_context("fork").Pool(16)
+
+
+def _replay_all(ctx, pool, batches):
+    """batches: list of (cfg name, algs, source label, [events...]).  Replays everything in forked
+    children (each behaviour in its own fork) and judges."""
     items = []
     for cfg, algs, label, hs in batches:
-        _CONFIGS[cfg] = algs
+        if _CONFIGS.get(cfg) != algs:
+            raise MachineryError("configuration unknown to the pool")
         items += [(cfg, label, h) for h in hs]
     t0 = time.time()
-    _prepare_fork()
-    mp = multiprocessing.get_context("fork")
-    with mp.Pool(16) as pool:
-        outs = pool.map(_pool_task, [(c, h) for c, _, h in items], chunksize=8)
+    outs = pool.map(_pool_task, [(c, h) for c, _, h in items], chunksize=4)
     tot = {"applies": 0, "late": 0, "stale": 0, "coded_agree": 0}
     fps = ctx.cov.setdefault("mismatches_by_fingerprint", {})
     for (cfg, label, h), out in zip(items, outs):
@@ -701,35 +702,33 @@ def _plan(ctx, real):
     seed = 1000 + ctx.seed
     intended, coded, emit = [], [], []
     if q:
-        intended += [
-            _Job("intended A full 2reg 1inst", A, 2, 1, True, "full", workers=8, coverage=True),
-            _Job("intended A state 3reg 1inst", A, 3, 1, True, "state", workers=8, coverage=True),
-        ]
+        # one exhaustive run in the quick tier (all invariants); the 3-registration / 2-object bounds and
+        # the per-action coverage are part of the thorough tier
+        intended += [_Job("intended A full 2reg 1inst", A, 2, 1, True, "full", workers=8)]
         for a in ("M1", "T1", "D1"):
             coded.append(_Job(f"coded {a}", _single(A, a), 3, 2, False, "apply", workers=2))
         emit.append(("A", A, "enumerated", _Job("enumerate A one class L3", A, 1, 2, False, "emit1", maxhist=3, workers=2)))
-        emit.append(("A", A, "random", _Job("simulate A d12", A, 3, 2, False, "emit", maxhist=12, simulate=30, seed=seed, workers=1)))
-        emit.append(("R", real, "random_real", _Job("simulate real d12", real, 3, 2, False, "emit", maxhist=12, simulate=30, seed=seed + 1, workers=1)))
+        emit.append(("A", A, "random", _Job("simulate A d12", A, 3, 2, False, "emit", maxhist=12, simulate=25, seed=seed, workers=1)))
+        emit.append(("R", real, "random_real", _Job("simulate real d12", real, 3, 2, False, "emit", maxhist=12, simulate=25, seed=seed + 1, workers=1)))
     else:
         intended += [
-            _Job("intended A state 3reg 2inst", A, 3, 2, True, "state", workers=8, coverage=True),
-            _Job("intended B state 3reg 2inst", B, 3, 2, True, "state", workers=8, coverage=True),
+            _Job("intended A state 3reg 2inst", A, 3, 2, True, "state", workers=12, coverage=True),
             _Job("intended A full 3reg 1inst", A, 3, 1, True, "full", workers=8, coverage=True),
-            _Job("intended A full 2reg 2inst", A, 2, 2, True, "full", workers=8, coverage=True),
-            _Job("intended real state 2reg 1inst", real, 2, 1, True, "state", workers=8, coverage=True),
+            _Job("intended B state 2reg 2inst", B, 2, 2, True, "state", workers=4, coverage=True),
+            _Job("intended real state 2reg 1inst", real, 2, 1, True, "state", workers=4, coverage=True),
         ]
         for X in (A, B):
             for a in sorted(X):
                 coded.append(_Job(f"coded {a}", _single(X, a), 3, 2, False, "apply", workers=2))
         for a in ("SDE", "REUSE", "PREC"):
             coded.append(_Job(f"coded {a}", _single(real, a), 3, 2, False, "apply", workers=2))
-        for nm, X in (("A", A), ("B", B)):
-            emit.append((nm, X, "enumerated", _Job(f"enumerate {nm} one class L4", X, 1, 2, False, "emit1", maxhist=4, workers=4)))
-            emit.append((nm, X, "random", _Job(f"simulate {nm} d14", X, 3, 2, False, "emit", maxhist=14, simulate=500, seed=seed, workers=1)))
-            emit.append((nm, X, "random", _Job(f"simulate {nm} d22", X, 3, 2, False, "emit", maxhist=22, simulate=100, seed=seed + 7, workers=1)))
+        for nm, X, L in (("A", A, 4), ("B", B, 3)):
+            emit.append((nm, X, "enumerated", _Job(f"enumerate {nm} one class L{L}", X, 1, 2, False, "emit1", maxhist=L, workers=4)))
+            emit.append((nm, X, "random", _Job(f"simulate {nm} d14", X, 3, 2, False, "emit", maxhist=14, simulate=300, seed=seed, workers=1)))
+            emit.append((nm, X, "random", _Job(f"simulate {nm} d22", X, 3, 2, False, "emit", maxhist=22, simulate=60, seed=seed + 7, workers=1)))
         emit.append(("R", real, "enumerated_real", _Job("enumerate real one class L3", real, 1, 2, False, "emit1", maxhist=3, workers=4)))
-        emit.append(("R", real, "random_real", _Job("simulate real d14", real, 3, 2, False, "emit", maxhist=14, simulate=500, seed=seed + 1, workers=1)))
-        emit.append(("R", real, "random_real", _Job("simulate real d22", real, 3, 2, False, "emit", maxhist=22, simulate=100, seed=seed + 8, workers=1)))
+        emit.append(("R", real, "random_real", _Job("simulate real d14", real, 3, 2, False, "emit", maxhist=14, simulate=300, seed=seed + 1, workers=1)))
+        emit.append(("R", real, "random_real", _Job("simulate real d22", real, 3, 2, False, "emit", maxhist=22, simulate=60, seed=seed + 8, workers=1)))
     return intended, coded, emit
 
 
@@ -758,81 +757,93 @@ def run(ctx, args):
     ctx.assume("the element class for the operand coefficient comes from the repository's test/utils.py")
 
     intended, coded, emit = _plan(ctx, real)
-    jobs = intended + coded + [e[3] for e in emit]
-    _run_jobs(jobs, parallel=8 if ctx.tier == "quick" else 4)
+    # the pool is forked before any thread exists; afterwards this process never forks a behaviour itself
+    pool = _make_pool({"A": HARNESS_A, "B": HARNESS_B, "R": real})
+    ex = ThreadPoolExecutor(max_workers=8 if ctx.tier == "quick" else 6)
+    try:
+        # long exhaustive runs first (they are the long pole), then the emission runs, then the small ones
+        order = intended + [e[3] for e in emit] + coded
+        futs = {id(j): ex.submit(j.run) for j in order}
 
-    # ---- 1a. the intended machine satisfies the property for all interleavings within the bounds
-    for j in intended:
-        ctx.add_tlc(j.res)
-        if j.res.outcome != "ok":
-            tlc.require_ok(j.res, j.label)  # the specification itself is wrong: machinery error
-        taken = _actions(j.res)
-        for act in ("Register", "Instantiate", "Apply"):
-            # (TLC names an action after the enclosing definition when the quantifier bound is a state function)
-            if not (taken.get(act) or taken.get("Do" + act)):
-                raise MachineryError(f"{j.label}: action {act} never taken (vacuous)")
-    ctx.cov["exhaustive"] = False  # the model is checked exhaustively within bounds; the real code is sampled
+        # ---- 2. replay TLC-generated behaviours into the real code (as soon as they are there)
+        batches = []
+        seen = set()
+        for cfg, algs, label, j in emit:
+            futs[id(j)].result()
+            ctx.add_tlc(j.res)
+            keep = []
+            for h in _behaviours(j):
+                key = hashlib.blake2b((cfg + json.dumps(h, sort_keys=True)).encode(), digest_size=10).digest()
+                if key not in seen:
+                    seen.add(key)
+                    keep.append(h)
+            batches.append((cfg, algs, label, keep))
+        tot = _replay_all(ctx, pool, batches)
+        rnd = random.Random(ctx.seed)
+        for cfg, algs, label, hs in batches:
+            if hs and len(ctx.cov["samples"]) < 5:
+                ctx.sample({"source": label, "classes": {a: s["defs"] for a, s in algs.items()}, "behaviour": _show(rnd.choice(hs))})
+        print(
+            f"  replayed {ctx.cov['traces_validated_against_impl']} behaviours, {tot['applies']} Apply observations "
+            f"({tot['late']} on late types, {tot['stale']} on types registered after first use of the class; "
+            f"{tot['coded_agree']} equal to the as-coded model)",
+            flush=True,
+        )
 
-    # ---- 1b. the machine as coded: the model must explain the defect
-    coded_info = []
-    for j in coded:
-        ctx.add_tlc(j.res)
-        (a,) = j.algs
-        kind = j.algs[a]["kind"]
-        info = {"class": a, "family": FAMILY[kind], "tlc": j.res.outcome, "violated": j.res.violated}
-        if kind == "DT":
-            if j.res.outcome != "ok":
-                raise MachineryError(f"{j.label}: the DAGTraverser model has no table, yet TLC reports {j.res.outcome}")
-        else:
-            if j.res.outcome != "invariant" or j.res.violated != "ApplyInRange":
-                raise MachineryError(f"{j.label}: the as-coded model must violate ApplyInRange, TLC says {j.res.outcome} {j.res.violated}\n" + j.res.stdout[-1500:])
-            events = _trace_events(j.res)
-            last = events[-1]
-            out = _isolated({"algs": j.algs, "events": events})
-            if "error" in out:
-                raise MachineryError(f"{j.label}: replay of the counterexample failed in the harness: {out['error']}\n{out.get('tb', '')}")
-            info["counterexample"] = _show(events)
-            info["model_outcome"] = last["out"]
-            info["real_outcome"] = out["results"][-1]
-            info["reproduced_in_real_code"] = out["results"][-1] == "IndexError"
-            ctx.traces(1)
-            if info["reproduced_in_real_code"]:
-                ctx.count("coded_model_counterexamples_reproduced")
-                print(f"  as-coded model counterexample reproduced in the real code: {info['counterexample']} -> IndexError", flush=True)
+        # ---- 1b. the machine as coded: the model must explain the defect
+        coded_info = []
+        for j in coded:
+            futs[id(j)].result()
+            ctx.add_tlc(j.res)
+            (a,) = j.algs
+            kind = j.algs[a]["kind"]
+            info = {"class": a, "family": FAMILY[kind], "tlc": j.res.outcome, "violated": j.res.violated}
+            if kind == "DT":
+                if j.res.outcome != "ok":
+                    raise MachineryError(f"{j.label}: the DAGTraverser model has no table, yet TLC reports {j.res.outcome}")
             else:
-                # informational: the real code no longer behaves like the as-coded model (repaired)
-                ctx.count("coded_model_counterexamples_not_reproduced")
-                print(f"  as-coded model counterexample NOT reproduced (real code: {info['real_outcome']}): {info['counterexample']}", flush=True)
-        coded_info.append(info)
-    ctx.cov["as_coded_model"] = coded_info
+                if j.res.outcome != "invariant" or j.res.violated != "ApplyInRange":
+                    raise MachineryError(f"{j.label}: the as-coded model must violate ApplyInRange, TLC says {j.res.outcome} {j.res.violated}\n" + j.res.stdout[-1500:])
+                events = _trace_events(j.res)
+                last = events[-1]
+                out = pool.apply(_isolated, ({"algs": j.algs, "events": events},))
+                if "error" in out:
+                    raise MachineryError(f"{j.label}: replay of the counterexample failed in the harness: {out['error']}\n{out.get('tb', '')}")
+                info["counterexample"] = _show(events)
+                info["model_outcome"] = last["out"]
+                info["real_outcome"] = out["results"][-1]
+                info["reproduced_in_real_code"] = out["results"][-1] == "IndexError"
+                ctx.traces(1)
+                if info["reproduced_in_real_code"]:
+                    ctx.count("coded_model_counterexamples_reproduced")
+                    print(f"  as-coded model counterexample reproduced in the real code: {info['counterexample']} -> IndexError", flush=True)
+                else:
+                    # informational: the real code no longer behaves like the as-coded model (repaired)
+                    ctx.count("coded_model_counterexamples_not_reproduced")
+                    print(f"  as-coded model counterexample NOT reproduced (real code: {info['real_outcome']}): {info['counterexample']}", flush=True)
+            coded_info.append(info)
+        ctx.cov["as_coded_model"] = coded_info
 
-    # ---- 2. replay TLC-generated behaviours into the real code
-    batches = []
-    for cfg, algs, label, j in emit:
-        ctx.add_tlc(j.res)
-        hs = _behaviours(j)
-        batches.append((cfg, algs, label, hs))
-    seen = set()
-    uniq = []
-    for cfg, algs, label, hs in batches:
-        keep = []
-        for h in hs:
-            key = hashlib.blake2b((cfg + json.dumps(h, sort_keys=True)).encode(), digest_size=10).digest()
-            if key not in seen:
-                seen.add(key)
-                keep.append(h)
-        uniq.append((cfg, algs, label, keep))
-    tot = _replay_all(ctx, uniq)
-    rnd = random.Random(ctx.seed)
-    for cfg, algs, label, hs in uniq:
-        if hs and len(ctx.cov["samples"]) < 5:
-            ctx.sample({"source": label, "classes": {a: s["defs"] for a, s in algs.items()}, "behaviour": _show(rnd.choice(hs))})
-    print(
-        f"  replayed {ctx.cov['traces_validated_against_impl']} behaviours, {tot['applies']} Apply observations "
-        f"({tot['late']} on late types, {tot['stale']} on types registered after first use of the class; "
-        f"{tot['coded_agree']} equal to the as-coded model)",
-        flush=True,
-    )
+        # ---- 1a. the intended machine satisfies the property for all interleavings within the bounds
+        for j in intended:
+            futs[id(j)].result()
+            ctx.add_tlc(j.res)
+            if j.res.outcome != "ok":
+                tlc.require_ok(j.res, j.label)  # the specification itself is wrong: machinery error
+            if j.coverage:
+                taken = _actions(j.res)
+                for act in ("Register", "Instantiate", "Apply"):
+                    # (TLC names an action after the enclosing definition when the quantifier bound is a state function)
+                    if not (taken.get(act) or taken.get("Do" + act)):
+                        raise MachineryError(f"{j.label}: action {act} never taken (vacuous)")
+            elif j.res.distinct < 1000 or j.res.depth < 2 + j.nreg + j.maxinst:
+                # without -coverage: the state graph must at least be as deep as all registrations, one
+                # object per class and one Apply
+                raise MachineryError(f"{j.label}: suspiciously small state graph ({j.res.distinct} states, depth {j.res.depth})")
+        ctx.cov["exhaustive"] = False  # the model is checked exhaustively within bounds; the real code is sampled
+    finally:
+        pool.terminate()
+        ex.shutdown(wait=True, cancel_futures=True)
 
 
 # ------------------------------------------------------------------------------------------------
